@@ -1582,3 +1582,19 @@ package zygo
 // until it is reviewed and listed. Same for the delayed-argument record.
 //@ fieldsclosed C05 Zlisp | parser, datastack, addrstack, linearstack, loopstack, symtable, revsymtable, builtins, reserved, macros, curfunc, mainfunc, pc, nextsymbol, before, after, debugExec, debugSymbolNotFound, showGlobalScope, baseTypeCtor, infixOps, Pretty, booter, WrapLoadExpressionsInInfix, sandboxed, Echo
 //@ fieldsclosed C05 SexpLazyArg | Expr, Stack, CurFunc, Forced, Value
+
+// C13: the REPL hands every continuation line it reads to the suspended parser, one line per
+// wake-up: no line (blank or not: it may sit inside a string or a comment) is kept from it
+//@ func (*Prompter).getExpressionWithLiner$1
+//@ ghost linesRead := 0 @entry
+//@ ghost linesRead := linesRead + 1 @after call getLine[*]
+//@ ghost linesRead := linesRead + 1 @after call Getline[*]
+//@ C13 assert every-line-reaches-the-parser @before call NewInput[*]: linesRead == 1
+//@ C13 ensures no-line-is-dropped: linesRead == 0 || linesRead == 1
+
+// C18: the hash walker never looks into a package itself: a package found inside a hash is
+// handed to the package walker, which applies the privacy rule to every hop
+//@ func (*SexpHash).nestedPathGetSet
+//@ C18 assert packages-are-walked-by-the-package-walker @before call LookupSymbol[*]: false
+//@ C18 assert packages-are-walked-by-the-package-walker @before call lookupSymbol[*]: false
+//@ C18 assert packages-are-walked-by-the-package-walker @before call LookupSymbolUntilFunction[*]: false
